@@ -200,10 +200,6 @@ func (p *Program) freeVarAlloc(fv *ssa.FreeVar) *ssa.Alloc {
 	return al
 }
 
-func dominates(a, b *ssa.BasicBlock) bool {
-	return a.Dominates(b)
-}
-
 func sameAddr(a, b ssa.Value) bool {
 	if a == b {
 		return true
@@ -423,7 +419,7 @@ func (p *Program) desc(v ssa.Value, depth int) string {
 
 		return "free:" + x.Name()
 	case *ssa.Alloc:
-		return "var:" + x.Comment
+		return "var:" + allocName(x)
 	case *ssa.Global:
 		return "global:" + trimMod(x.Pkg.Pkg.Path()) + "." + x.Name()
 	case *ssa.Function:
@@ -624,6 +620,144 @@ func Glob(pattern, s string) bool {
 func GlobAny(patterns []string, s string) bool {
 	for _, pt := range patterns {
 		if Glob(pt, s) {
+			return true
+		}
+	}
+
+	return false
+}
+
+// allocName names a local variable independently of its source name: synthetic allocations keep
+// go/ssa's role comment (complit, varargs, makeslice, …); declared locals and spilled parameters are
+// named by their type, with #n appended for the n-th further variable of the same type in the
+// function (in order of appearance). Renaming a local therefore never changes a description.
+func allocName(al *ssa.Alloc) string {
+	switch al.Comment {
+	case "complit", "varargs", "makeslice", "new", "slicelit", "arraylit", "maplit", "":
+		return al.Comment
+	}
+
+	elem := al.Type().(*types.Pointer).Elem()
+	name := trimMod(types.TypeString(elem, nil))
+	n := 0
+
+	if fn := al.Parent(); fn != nil {
+	outer:
+		for _, b := range fn.Blocks {
+			for _, in := range b.Instrs {
+				o, ok := in.(*ssa.Alloc)
+				if !ok {
+					continue
+				}
+
+				if o == al {
+					break outer
+				}
+
+				switch o.Comment {
+				case "complit", "varargs", "makeslice", "new", "slicelit", "arraylit", "maplit", "":
+					continue
+				}
+
+				if types.Identical(o.Type().(*types.Pointer).Elem(), elem) {
+					n++
+				}
+			}
+		}
+	}
+
+	if n > 0 {
+		return fmt.Sprintf("%s#%d", name, n)
+	}
+
+	return name
+}
+
+// AllStores lists the values ever stored to the local variable al, looking also into the closures
+// that capture it by reference.
+func AllStores(al *ssa.Alloc) []*ssa.Store {
+	var out []*ssa.Store
+
+	var visit func(addr ssa.Value, depth int)
+
+	visit = func(addr ssa.Value, depth int) {
+		if depth > 6 || addr.Referrers() == nil {
+			return
+		}
+
+		for _, r := range *addr.Referrers() {
+			switch rr := r.(type) {
+			case *ssa.Store:
+				if rr.Addr == addr {
+					out = append(out, rr)
+				}
+			case *ssa.MakeClosure:
+				fn, ok := rr.Fn.(*ssa.Function)
+				if !ok {
+					continue
+				}
+
+				for i, bnd := range rr.Bindings {
+					if bnd == addr && i < len(fn.FreeVars) {
+						visit(fn.FreeVars[i], depth+1)
+					}
+				}
+			}
+		}
+	}
+
+	visit(al, 0)
+
+	return out
+}
+
+// MayHoldCall reports whether v is (a result of) a call selected by the callee globs, or a load of a
+// local variable (possibly captured) into which such a result is stored somewhere.
+func (p *Program) MayHoldCall(v ssa.Value, globs ...string) bool {
+	isCall := func(x ssa.Value) bool {
+		x = Fwd(x)
+		if e, ok := x.(*ssa.Extract); ok {
+			x = e.Tuple
+		}
+
+		c, ok := x.(*ssa.Call)
+
+		return ok && GlobAny(globs, p.CalleeName(c))
+	}
+
+	v = Fwd(v)
+	if isCall(v) {
+		return true
+	}
+
+	if phi, ok := v.(*ssa.Phi); ok {
+		for _, e := range phi.Edges {
+			if isCall(e) {
+				return true
+			}
+		}
+	}
+
+	load, ok := v.(*ssa.UnOp)
+	if !ok || load.Op != token.MUL {
+		return false
+	}
+
+	var al *ssa.Alloc
+
+	switch a := load.X.(type) {
+	case *ssa.Alloc:
+		al = a
+	case *ssa.FreeVar:
+		al = p.freeVarAlloc(a)
+	}
+
+	if al == nil {
+		return false
+	}
+
+	for _, st := range AllStores(al) {
+		if isCall(st.Val) {
 			return true
 		}
 	}
